@@ -591,7 +591,21 @@ pub fn older_written_after_newer_in<'a>(log: impl Iterator<Item = &'a crate::sim
     let mut of_stale = vec![];
     let mut of_newer = vec![];
     let mut by_seq: Vec<(u64, &crate::simdev::LogRec)> = vec![];
-    for r in log {
+    let log: Vec<&crate::simdev::LogRec> = log.collect();
+    // an entry enters the index when the block part it belongs to is complete: data write AND the rewrite of the blob
+    // index that follows it on the same block
+    let indexed_at = |r: &crate::simdev::LogRec| -> u64 {
+        let own = r.completed_clock.unwrap_or(u64::MAX);
+        let idx = log
+            .iter()
+            .filter(|x| x.kind == crate::simdev::IoKind::Write && x.part == r.part && x.issued_clock > r.issued_clock && x.len == index_size)
+            .filter(|x| x.data.as_ref().map(|d| matches!(classify_write(x.part, x.offset, d, index_size, tomb), WriteKind::BlobIndex(_))).unwrap_or(false))
+            .map(|x| x.completed_clock.unwrap_or(u64::MAX))
+            .next()
+            .unwrap_or(own);
+        own.max(idx)
+    };
+    for r in log.iter().copied() {
         if r.kind != crate::simdev::IoKind::Write {
             continue;
         }
@@ -614,13 +628,18 @@ pub fn older_written_after_newer_in<'a>(log: impl Iterator<Item = &'a crate::sim
             }
         }
     }
+    if std::env::var("VERIF_DEBUG_SEQ").is_ok() {
+        for (sq, r) in &by_seq {
+            eprintln!("key {key} seq {sq}: write #{} part {} off {} issued {} done {:?}", r.seq, r.part, r.offset, r.issued_clock, r.completed_clock);
+        }
+    }
     if of_stale.is_empty() {
         // values too small to carry their version (0..24 bytes) cannot be told apart by content: fall back to the entry
         // sequences - some block write carrying an entry of this key was unfinished when a block write carrying an
         // entry of the key with a higher sequence was issued
-        return by_seq.iter().any(|(sa, a)| by_seq.iter().any(|(sb, b)| sb > sa && a.completed_clock.unwrap_or(u64::MAX) > b.issued_clock));
+        return by_seq.iter().any(|(sa, a)| by_seq.iter().any(|(sb, b)| sb > sa && indexed_at(a) > b.issued_clock));
     }
-    of_stale.iter().any(|a| of_newer.iter().any(|b| a.completed_clock.unwrap_or(u64::MAX) > b.issued_clock))
+    of_stale.iter().any(|a| of_newer.iter().any(|b| indexed_at(a) > b.issued_clock))
 }
 
 /// Structural condition of the known finding "cleared entry back after restart": the returned version was written
